@@ -146,7 +146,7 @@ theorem filter_ne_length {l : List Nat} (hn : l.Nodup) {p : Nat} (hp : p ∈ l) 
         · exact h
       have := ih hn.2 hp'
       rw [List.filter_cons]
-      simp only [ne_eq, ha, not_false_eq_true, decide_true, if_true, List.length_cons]
+      simp only [ne_eq, ha, not_false_eq_true, decide_true, if_true, List.length_cons] at this ⊢
       omega
 
 theorem monStep_success_true {m : Mon} {p : Nat} (hm : m.fin = false) (hp : p ∈ m.pending) :
@@ -163,8 +163,8 @@ theorem monStep_issue {m : Mon} {p : Nat} (hm : m.fin = false) (h1 : p ∉ m.iss
     (h3 : ¬ m.pending.length ≥ m.parallelism) :
     monStep m .next (.waiting (some p)) false =
       ({ m with issued := p :: m.issued, pending := p :: m.pending }, none) := by
-  simp [monStep, hm, h1, h2]
-  omega
+  have h3' : ¬ m.parallelism ≤ m.pending.length := by omega
+  simp [monStep, hm, h1, h2, h3']
 
 /-! ## `on_success` / `on_failure` -/
 
@@ -385,13 +385,16 @@ theorem step_ok {m : Mon} {s : Iter} (h : Inv s) (hr : R m s) (op : Op) :
             rcases hr.backlog q hq with hi | hb
             · exact hi
             · exact (hr.issued q).2 ((pfind_isSome_iff s.peers q).2 (hall q hb))
+          have hall' : ¬ ∃ x, x ∈ m.peers ∧ ¬ x ∈ m.issued := by
+            simp only [List.all_eq_true, List.contains_iff_mem] at hallissued
+            rintro ⟨x, hx, hnx⟩; exact hnx (hallissued x hx)
           by_cases hz : nw = 0
           · subst hz
             simp only [if_true]
             have hpe : m.pending.isEmpty = true := by
               rw [List.isEmpty_iff, ← List.length_eq_zero_iff]; exact hpl
             refine ⟨⟨h.par_pos, h.nodup, by intro nw' hh; simp at hh⟩, by simp, ?_, ?_⟩
-            · simp [monStep, hm, hpe, hallissued, isFinished]
+            · simp [monStep, hm, hpe, hall', isFinished]
             · simp only [monStep, hm, hpe, hallissued]
               refine ⟨hr.par, hr.issued, hr.pending, hr.pending_nodup, hr.pending_len, hr.accepted,
                 ?_, by intro q hq; simp at hq, by simp [isFinished]⟩
@@ -406,9 +409,9 @@ theorem step_ok {m : Mon} {s : Iter} (h : Inv s) (hr : R m s) (op : Op) :
               | cons a t => rfl
             refine ⟨⟨h.par_pos, h.nodup, by
               intro nw' hh
-              have : s.state = .waiting nw' := hh
-              exact h.nw nw' this⟩, by simp, ?_, ?_⟩
-            · simp [monStep, hm, hpe, hallissued, isFinished, hs]
+              simp at hh; subst hh
+              exact ⟨hnw, hle⟩⟩, by simp, ?_, ?_⟩
+            · simp [monStep, hm, hpe, hall', isFinished, hs]
             · simp only [monStep, hm, hpe, hallissued]
               refine ⟨hr.par, hr.issued, hr.pending, hr.pending_nodup, hr.pending_len, hr.accepted,
                 ?_, by intro q hq; simp at hq, by simp [isFinished, hs, hm]⟩
